@@ -31,12 +31,34 @@ type typeDictionary struct {
 	dict map[Node]map[string]*Typedef
 	// identities contains a dictionary of resolved identities.
 	identities identityDictionary
+	// resolving is the set of Types that are currently being resolved.  It
+	// is used to detect Types that are defined in terms of themselves.
+	resolving map[*Type]bool
 }
 
 func newTypeDictionary() *typeDictionary {
 	return &typeDictionary{
 		dict:       map[Node]map[string]*Typedef{},
 		identities: identityDictionary{dict: map[string]resolvedIdentity{}},
+		resolving:  map[*Type]bool{},
+	}
+}
+
+// isResolving returns whether t is currently being resolved.
+func (d *typeDictionary) isResolving(t *Type) bool {
+	defer d.mu.Unlock()
+	d.mu.Lock()
+	return d.resolving[t]
+}
+
+// setResolving records whether t is currently being resolved.
+func (d *typeDictionary) setResolving(t *Type, resolving bool) {
+	defer d.mu.Unlock()
+	d.mu.Lock()
+	if resolving {
+		d.resolving[t] = true
+	} else {
+		delete(d.resolving, t)
 	}
 }
 
@@ -160,9 +182,17 @@ func (t *Typedef) resolve(d *typeDictionary) []error {
 // resolve resolves Type t, as well as the underlying typedef for t.  If t
 // cannot be resolved then one or more errors are returned.
 func (t *Type) resolve(d *typeDictionary) (errs []error) {
+	// Resolving t requires resolving the typedef it refers to, which in
+	// turn requires resolving that typedef's type.  If we get back to t
+	// then t is (indirectly) defined in terms of itself.
+	if d.isResolving(t) {
+		return []error{fmt.Errorf("%s: circular type dependency: %s", Source(t), t.Name)}
+	}
 	if t.YangType != nil {
 		return nil
 	}
+	d.setResolving(t, true)
+	defer d.setResolving(t, false)
 
 	// If t.Name is a base type then td will not be nil, otherwise
 	// td will be nil and of type *Typedef.
